@@ -1,8 +1,9 @@
 """Pre-check of inequality obligations against a small deterministic solver budget (used by C39, C44).
 
-An obligation is kept if it will be decided: proved by the linear-arithmetic relaxation over monomials, decided either way by nlsat within
-PRE_RLIMIT, or falsified numerically by the path's own seed. What is not decidable within the budget is left out of the claim on that path and
-counted in the evidence assumptions; an obligation whose violation is exhibited by the seed or by nlsat is never left out."""
+An obligation is kept if it will be decided robustly: proved by the linear-arithmetic relaxation over monomials (deterministic, fast), or shown
+violated - numerically by the path's own seed or by an nlsat model found within PRE_RLIMIT. Everything else (including what only nlsat could prove:
+its running time on these formulas is not reproducible under machine load) is left out of the claim on that path and counted in the evidence
+assumptions; an obligation whose violation is exhibited by the seed or by nlsat is never left out."""
 from engine.driver.core import goal_numeric
 from engine.driver.solve import Query, run_z3
 
@@ -23,4 +24,4 @@ def within_budget(enc, hyps, ob, pre_rlimit=PRE_RLIMIT):
         return True
     smt, names = q.smt()
     r, _, _ = run_z3(smt, names, rlimit=pre_rlimit, seed=1, timeout_ms=60000)
-    return r in ("sat", "unsat")
+    return r == "sat"
